@@ -70,9 +70,9 @@ theorem plainField_readTLV (d : Dialect) (m : Mode) (t : ATy) (p : FP) (bs : Byt
       ∃ tl utag inner consumed, readTLV (d.forMode m) bs = .ok (⟨tl, inner, consumed⟩, rest) ∧ k tl utag inner consumed = .ok v := by
     intro k hk
     cases fieldShell_ok _ _ _ _ _ _ _ _ hk with
-    | emptyAbsent _ ho _ _ => rw [hopt] at ho; cases ho
+    | emptyAbsent _ ho _ _ _ => rw [hopt] at ho; cases ho
     | any ha _ _ => rw [hany] at ha; cases ha
-    | absent _ ho _ _ => rw [hopt] at ho; cases ho
+    | absent _ ho _ _ _ => rw [hopt] at ho; cases ho
     | flagSet hh _ _ =>
       unfold header at hh
       cases h0 : parseTagLen (d.forMode m) bs with
